@@ -1,28 +1,41 @@
 //! C20: the MRT queue endpoint (`units::mrt_file_in::api::Processor`) against a
-//! real directory tree. Same case grammar as oracle/eng_c20.ml:
+//! real directory tree THAT CHANGES WHILE THE PROCESSOR LIVES. Same case grammar as
+//! oracle/eng_c20.ml:
 //!
 //!   R <abs>            scratch root of this case; must be canonical and contain "/.cache/c20fs/"
 //!   D <p> | F <p>      directory / regular file at <p> (relative to R, components %XX-decoded)
 //!   L <p> <target>     symbolic link at <p>; target text %XX-decoded, '@' stands for R
-//!   U <dir> | U -      configured update_path ('@' stands for R) or none
+//!   P <p> <target>     re-point the symbolic link at <p> (a new link is renamed over it, as `ln -sfn` does)
+//!   X <p>              remove <p> (a directory with everything below it)
+//!   M <p> <q>          rename <p> to the unused name <q>
+//!   U <dir> | U -      build the processor (Processor::new) with this update_path ('@' stands for R)
+//!                      or with none; the one built last serves all following requests
 //!   Q <method> <rawpath> <rawquery|-> <mode>
-//!                      one HTTP request; '@' in the query stands for R; mode = what the unit
-//!                      answers on the oneshot: o ok, e error, d sender dropped, s silent (5 s timeout)
+//!                      one HTTP request to the processor built by the last U; '@' in the query stands
+//!                      for R; mode = what the unit answers on the oneshot: o ok, e error, d sender
+//!                      dropped, s silent (5 s timeout)
 //!
-//! A tree op whose parent is not a directory created before (or R itself), or
-//! whose path exists already, or with an empty/'.'/'..' component, is ignored
-//! (same rule in the oracle driver), so any subsequence of a case is a case.
+//! Every op is one event of a history, carried out in order: tree ops may stand anywhere,
+//! also between requests, and they act on the real directory while ONE long-lived Processor
+//! (and its queue) stays in place - a processor that keeps anything about the tree from the
+//! time it was built, or from an earlier request, answers from the past.
+//!
+//! <p>, <q> are PHYSICAL paths: every component before the last must be a real directory
+//! (lstat), never a symbolic link. A tree op that the file system would refuse (parent missing
+//! or not a real directory, name taken, name absent, a directory moved into itself, not a link,
+//! an empty/'.'/'..' component, an empty target) is skipped (same rule in the model, pc_apply),
+//! so any subsequence of a case is a case.
 //!
 //! Observation per Q: `<status|none> <enqueued> why`
 //!   enqueued = '-' or the comma separated list of what arrived on the queue, each resolved
-//!   the way the unit's File::open would resolve it, relative to R ('.' for R itself),
+//!   the way the unit's File::open would resolve it (right after the request, the tree as the
+//!   request saw it), relative to R ('.' for R itself),
 //!   `OUT:<abs>` when outside R, `UNRES:<path>` when it does not resolve; each followed by
 //!   `:c` when the enqueued path TEXT is byte for byte its own canonicalisation, else `:n`
 //!   (the unit resolves the text again later: a non-canonical text names a location that can
 //!   move between the endpoint's check and the unit's use).
 use rotonda::verif::mrt::hyper::{Body, Request};
-use rotonda::verif::mrt::{new_processor, ProcessRequest};
-use std::collections::HashMap;
+use rotonda::verif::mrt::{new_processor, ProcessRequest, Processor, QueueEntry};
 use std::ffi::OsString;
 use std::os::unix::ffi::{OsStrExt, OsStringExt};
 use std::path::{Path, PathBuf};
@@ -74,7 +87,7 @@ fn tree_comps(p: &str) -> Option<Vec<Vec<u8>>> {
     Some(v)
 }
 
-struct Tree { root: PathBuf, known: HashMap<Vec<Vec<u8>>, Kind> }
+struct Tree { root: PathBuf }
 
 impl Tree {
     fn disk(&self, comps: &[Vec<u8>]) -> PathBuf {
@@ -82,22 +95,61 @@ impl Tree {
         for c in comps { p.push(OsString::from_vec(c.clone())); }
         p
     }
-    fn add(&mut self, p: &str, kind: Kind, target: Option<Vec<u8>>) {
+    /// what is at the physical path `comps` ON DISK right now: None if it does not exist or
+    /// if some component before the last is not a real directory (lstat, no link followed)
+    fn kind_at(&self, comps: &[Vec<u8>]) -> Option<Kind> {
+        let mut p = self.root.clone();
+        for (i, c) in comps.iter().enumerate() {
+            p.push(OsString::from_vec(c.clone()));
+            let ft = std::fs::symlink_metadata(&p).ok()?.file_type();
+            let kind = if ft.is_symlink() { Kind::Link } else if ft.is_dir() { Kind::Dir } else { Kind::File };
+            if i + 1 == comps.len() { return Some(kind); }
+            if kind != Kind::Dir { return None; }
+        }
+        Some(Kind::Dir) // the scratch root itself
+    }
+    fn parent_is_dir(&self, comps: &[Vec<u8>]) -> bool { self.kind_at(&comps[..comps.len() - 1]) == Some(Kind::Dir) }
+
+    fn create(&mut self, p: &str, kind: Kind, target: Option<Vec<u8>>) {
         let comps = match tree_comps(p) { Some(c) => c, None => return };
-        if self.known.contains_key(&comps) { return; }
-        let parent = &comps[..comps.len() - 1];
-        if !parent.is_empty() && self.known.get(parent) != Some(&Kind::Dir) { return; }
+        if let Some(t) = &target { if t.is_empty() || t.contains(&0) { return; } }
+        if !self.parent_is_dir(&comps) || self.kind_at(&comps).is_some() { return; }
         let path = self.disk(&comps);
         match kind {
             Kind::Dir => std::fs::create_dir(&path).expect("mkdir"),
             Kind::File => std::fs::write(&path, b"x").expect("write"),
-            Kind::Link => {
-                let t = target.unwrap();
-                if t.is_empty() || t.contains(&0) { return; }
-                std::os::unix::fs::symlink(OsString::from_vec(t), &path).expect("symlink")
-            }
+            Kind::Link => std::os::unix::fs::symlink(OsString::from_vec(target.unwrap()), &path).expect("symlink"),
         }
-        self.known.insert(comps, kind);
+    }
+    fn remove(&mut self, p: &str) {
+        let comps = match tree_comps(p) { Some(c) => c, None => return };
+        let path = self.disk(&comps);
+        match self.kind_at(&comps) {
+            None => {}
+            Some(Kind::Dir) => std::fs::remove_dir_all(&path).expect("rm -r"),
+            Some(_) => std::fs::remove_file(&path).expect("unlink"),
+        }
+    }
+    fn rename(&mut self, p: &str, q: &str) {
+        let (from, to) = match (tree_comps(p), tree_comps(q)) { (Some(a), Some(b)) => (a, b), _ => return };
+        if to.len() >= from.len() && to[..from.len()] == from[..] { return; } // onto itself / into itself
+        if self.kind_at(&from).is_none() || !self.parent_is_dir(&to) || self.kind_at(&to).is_some() { return; }
+        std::fs::rename(self.disk(&from), self.disk(&to)).expect("rename");
+    }
+    /// re-point a symbolic link the way `ln -sfn` does: make the new link under a spare name,
+    /// rename it over the old one (the name never disappears)
+    fn repoint(&mut self, p: &str, target: Vec<u8>) {
+        let comps = match tree_comps(p) { Some(c) => c, None => return };
+        if target.is_empty() || target.contains(&0) { return; }
+        if self.kind_at(&comps) != Some(Kind::Link) { return; }
+        let path = self.disk(&comps);
+        let mut spare = comps.clone();
+        spare.pop();
+        spare.push(b".c20-repoint-spare".to_vec());
+        let spare = self.disk(&spare);
+        let _ = std::fs::remove_file(&spare);
+        std::os::unix::fs::symlink(OsString::from_vec(target), &spare).expect("symlink");
+        std::fs::rename(&spare, &path).expect("rename over link");
     }
 }
 
@@ -127,39 +179,44 @@ fn show_enqueued(p: &Path, root: &Path) -> String {
     }
 }
 
-fn request(root: &Path, update: &Option<PathBuf>, method: &str, rawpath: &str, rawquery: &str, mode: &str) -> String {
+/// The processor built by the last `U`, with the receiving end of its queue. Both live until
+/// the next `U` or the end of the case; nothing is rebuilt per request.
+struct Unit { processor: Processor, queue: tokio::sync::mpsc::Receiver<QueueEntry> }
+
+fn request(root: &Path, unit: &mut Unit, method: &str, rawpath: &str, rawquery: &str, mode: &str) -> String {
     let uri = if rawquery == "-" { rawpath.to_string() } else { format!("{rawpath}?{rawquery}") };
     let req = match Request::builder().method(method).uri(uri).body(Body::empty()) {
         Ok(r) => r,
         Err(_) => return "BADURI - why".to_string(),
     };
-    let (proc_, mut qrx) = new_processor("u", update.clone(), 16);
-    let mode = mode.to_string();
+    let Unit { processor, queue } = unit;
     let (resp, got) = RT.with(|rt| {
-        rt.block_on(async move {
-            let unit = async {
-                let mut got: Vec<PathBuf> = vec![];
-                let mut held = vec![];
-                while let Some((p, tx)) = qrx.recv().await {
-                    got.push(p);
-                    if let Some(tx) = tx {
-                        match mode.as_str() {
-                            "e" => { let _ = tx.send(Err("unit says no".to_string())); }
-                            "d" => drop(tx),
-                            "s" => held.push(tx),
-                            _ => { let _ = tx.send(Ok("OK!".to_string())); }
+        rt.block_on(async {
+            // plays the unit's queue loop for as long as this request runs
+            let mut got: Vec<PathBuf> = vec![];
+            let mut held = vec![];
+            let http = processor.process_request(&req);
+            tokio::pin!(http);
+            let resp = loop {
+                tokio::select! {
+                    biased;
+                    r = &mut http => break r,
+                    Some((p, tx)) = queue.recv() => {
+                        got.push(p);
+                        if let Some(tx) = tx {
+                            match mode {
+                                "e" => { let _ = tx.send(Err("unit says no".to_string())); }
+                                "d" => drop(tx),
+                                "s" => held.push(tx),
+                                _ => { let _ = tx.send(Ok("OK!".to_string())); }
+                            }
                         }
                     }
                 }
-                drop(held);
-                got
             };
-            let http = async {
-                let r = proc_.process_request(&req).await;
-                drop(proc_); // closes the queue, ends `unit`
-                r
-            };
-            tokio::join!(http, unit)
+            while let Ok((p, _tx)) = queue.try_recv() { got.push(p); }
+            drop(held);
+            (resp, got)
         })
     });
     let st = match resp { None => "none".to_string(), Some(r) => r.status().as_u16().to_string() };
@@ -178,19 +235,24 @@ pub fn run_case(line: &str) -> String {
     let old_cwd = std::env::current_dir().ok();
     std::env::set_current_dir(&rootp).expect("chdir");
     let res = std::panic::catch_unwind(std::panic::AssertUnwindSafe(|| {
-        let mut tree = Tree { root: rootp.clone(), known: HashMap::new() };
-        let mut update: Option<PathBuf> = None;
+        let mut tree = Tree { root: rootp.clone() };
+        // before any U the unit runs without an update_path
+        let build = |update: Option<PathBuf>| { let (processor, queue) = new_processor("u", update, 16); Unit { processor, queue } };
+        let mut unit = build(None);
         let mut out: Vec<String> = vec![];
+        let target = |t: &str| unpct(&subst_root(t, &root));
         for op in &ops {
             match (op[0], op.len()) {
                 ("R", _) => {}
-                ("D", 2) => tree.add(op[1], Kind::Dir, None),
-                ("F", 2) => tree.add(op[1], Kind::File, None),
-                ("L", 3) => tree.add(op[1], Kind::Link, Some(unpct(&subst_root(op[2], &root)))),
-                ("U", 2) => {
-                    update = if op[1] == "-" { None } else { Some(PathBuf::from(OsString::from_vec(unpct(&subst_root(op[1], &root))))) }
-                }
-                ("Q", 5) => out.push(request(&rootp, &update, op[1], op[2], &subst_root(op[3], &root), op[4])),
+                ("D", 2) => tree.create(op[1], Kind::Dir, None),
+                ("F", 2) => tree.create(op[1], Kind::File, None),
+                ("L", 3) => tree.create(op[1], Kind::Link, Some(target(op[2]))),
+                ("P", 3) => tree.repoint(op[1], target(op[2])),
+                ("X", 2) => tree.remove(op[1]),
+                ("M", 3) => tree.rename(op[1], op[2]),
+                // Processor::new, in the tree as it is at this point of the history
+                ("U", 2) => unit = build(if op[1] == "-" { None } else { Some(PathBuf::from(OsString::from_vec(target(op[1])))) }),
+                ("Q", 5) => out.push(request(&rootp, &mut unit, op[1], op[2], &subst_root(op[3], &root), op[4])),
                 _ => out.push("BADOP".into()),
             }
         }
